@@ -16,7 +16,6 @@ use futures::{stream::FuturesUnordered, StreamExt};
 #[cfg(test)]
 use mockall::automock;
 use secp256k1::hashes::sha256;
-use tokio::join;
 use tracing::{debug, instrument, warn};
 
 use crate::rpc::{ClnRpc, RpcError};
@@ -165,9 +164,12 @@ where
             status: Some(ListsendpaysStatus::PENDING),
         };
         let pending_payments_fut = self.rpc.listsendpays(&pending_req);
-        let (completed_payments, pending_payments) =
-            join!(completed_payments_fut, pending_payments_fut);
-        let (completed_payments, pending_payments) = (completed_payments?, pending_payments?);
+        // Query the pending parts first and the completed parts only after
+        // that answer arrived: a part that completes in between is then seen
+        // by the second query. Queried concurrently, a part completing
+        // between the two answers shows up in neither.
+        let pending_payments = pending_payments_fut.await?;
+        let completed_payments = completed_payments_fut.await?;
 
         if let Some(preimage) = completed_payments
             .payments
